@@ -1,7 +1,7 @@
 (* TID non-interference for the transfer machine, and direct readings of the reactions to
    peer ERROR and invalid packets. *)
 From Coq Require Import List NArith ZArith Bool Lia.
-From VF Require Import Tftp.Transfer Tftp.MonitorProofs Tftp.Tid.
+From VF Require Import Tftp.Transfer Tftp.MonitorProofs Tftp.Ideal Tftp.Tid.
 Import ListNotations.
 Open Scope Z_scope.
 
@@ -51,15 +51,15 @@ Lemma answered_app l1 l2 : foreign_answered l1 = true -> foreign_answered l2 = t
   foreign_answered (l1 ++ l2) = true.
 Proof. unfold foreign_answered. intros H1 H2. now rewrite answered_from_app. Qed.
 
-(* ---------- await ---------- *)
+(* ---------- await ---------- (await0: Tftp/Ideal.v) *)
 Lemma lim_eq now dl : now < dl -> now + sock_timeout now dl = dl.
 Proof. intros H. unfold sock_timeout. destruct (Z.ltb_spec 0 (dl - now)); lia. Qed.
 
 (* nothing is due: the time-out fires at the deadline and the queue is untouched *)
 Lemma await_all_late vr want now dl evs : now < dl -> Forall (fun e => dl <= etime e) evs ->
-  await vr want now dl evs = (OTimeout, dl, evs, [TTimeout dl]).
+  await0 vr want now dl evs = (OTimeout, dl, evs, [TTimeout dl]).
 Proof.
-  intros Hn H. destruct evs as [|[t a d] r]; cbn [await]; rewrite lim_eq by exact Hn; [reflexivity|].
+  intros Hn H. destruct evs as [|[t a d] r]; cbn [await0]; rewrite lim_eq by exact Hn; [reflexivity|].
   inversion H as [|? ? Ht _]; subst. cbn [etime] in Ht.
   destruct (Z.ltb_spec t dl); [lia|reflexivity].
 Qed.
@@ -72,26 +72,26 @@ Definition clocks_meet (now now2 : Z) (evs : list event) : Prop :=
 
 Lemma await_tid vr want dl : forall evs now now2 o n e l,
   sorted evs -> now <= now2 -> now2 < dl -> clocks_meet now now2 evs ->
-  await vr want now2 dl evs = (o, n, e, l) ->
-  await vr want now dl (client_only evs) = (o, n, client_only e, strip_foreign l) /\
+  await0 vr want now2 dl evs = (o, n, e, l) ->
+  await0 vr want now dl (client_only evs) = (o, n, client_only e, strip_foreign l) /\
   sorted e /\ foreign_answered l = true.
 Proof.
   induction evs as [|[t a d] r IH]; intros now now2 o n e l Hs Hle Hlt Hm H.
-  - cbn [await client_only filter] in *. rewrite lim_eq in * by lia.
+  - cbn [await0 client_only filter] in *. rewrite lim_eq in * by lia.
     injection H as <- <- <- <-. repeat split.
   - destruct Hs as [Hh Hr]. inversion Hm as [|? ? Hm1 Hm2]; subst. cbn [etime] in Hm1.
-    cbn [await] in H. rewrite lim_eq in H by lia.
+    cbn [await0] in H. rewrite lim_eq in H by lia.
     cbn [client_only filter from_client].
     destruct (Z.ltb_spec t dl) as [Hdue|Hlate].
     + (* delivered *)
       destruct (a =? client)%N eqn:Ea; cbn [negb] in H.
       * (* from the peer *)
-        cbn [await]. rewrite lim_eq by lia. destruct (Z.ltb_spec t dl); [|lia]. rewrite Ea. cbn [negb].
+        cbn [await0]. rewrite lim_eq by lia. destruct (Z.ltb_spec t dl); [|lia]. rewrite Ea. cbn [negb].
         destruct (classify vr d) as [k| | |].
         -- destruct (k =? want)%N.
            ++ injection H as <- <- <- <-. rewrite Hm1. cbn [strip_foreign filter concerns_client]. rewrite Ea.
               repeat split; [exact Hr|]. unfold foreign_answered in *. cbn [answered_from]. now rewrite Ea.
-           ++ destruct (await vr want (Z.max now2 t) dl r) as [[[o2 n2] e2] l2] eqn:E2.
+           ++ destruct (await0 vr want (Z.max now2 t) dl r) as [[[o2 n2] e2] l2] eqn:E2.
               injection H as <- <- <- <-. rewrite Hm1 in E2.
               assert (Hm' : clocks_meet (Z.max now t) (Z.max now t) r) by (apply Forall_forall; reflexivity).
               destruct (IH (Z.max now t) (Z.max now t) _ _ _ _ Hr (Z.le_refl _) ltac:(lia) Hm' E2) as [A [B C]].
@@ -104,7 +104,7 @@ Proof.
         -- injection H as <- <- <- <-. rewrite Hm1. cbn [strip_foreign filter concerns_client]. rewrite Ea.
            repeat split; [exact Hr|]. unfold foreign_answered in *. cbn [answered_from]. now rewrite Ea.
       * (* from a foreign address: only the clock of this run moves *)
-        destruct (await vr want (Z.max now2 t) dl r) as [[[o2 n2] e2] l2] eqn:E2.
+        destruct (await0 vr want (Z.max now2 t) dl r) as [[[o2 n2] e2] l2] eqn:E2.
         injection H as <- <- <- <-.
         assert (Hm' : clocks_meet now (Z.max now2 t) r).
         { apply Forall_forall. intros x Hx.
@@ -127,6 +127,7 @@ Qed.
 Section Tries.
   Variable c : cfg.
   Hypothesis tm_pos : 0 < tmo c.
+  Hypothesis pr_zero : proc c = 0.
 
   Lemma send_tries_tid p want : forall tries now evs o n e l,
     sorted evs ->
@@ -137,9 +138,10 @@ Section Tries.
     induction tries as [|k IH]; intros now evs o n e l Hs H.
     - cbn [send_tries] in *. injection H as <- <- <- <-. repeat split. exact Hs.
     - rewrite send_tries_S in *.
-      destruct (await (v c) want now (now + tmo c) evs) as [[[o1 n1] e1] l1] eqn:E1.
-      assert (Hm : clocks_meet now now evs) by (apply Forall_forall; reflexivity).
       assert (Hlt : now < now + tmo c) by lia.
+      rewrite !(await_await0 c want _ pr_zero) in * by exact Hlt.
+      destruct (await0 (v c) want now (now + tmo c) evs) as [[[o1 n1] e1] l1] eqn:E1.
+      assert (Hm : clocks_meet now now evs) by (apply Forall_forall; reflexivity).
       destruct (await_tid _ _ _ _ _ _ _ _ _ _ Hs (Z.le_refl _) Hlt Hm E1) as [A [B C]].
       rewrite A.
       assert (Hsend : forall l', strip_foreign (TSend now client p :: l') = TSend now client p :: strip_foreign l')
@@ -210,6 +212,9 @@ Section Terminal.
   Variable ok : outcome.
   Hypothesis ok_not_acked : ok <> OAcked.
   Hypothesis ok_not_timeout : ok <> OTimeout.
+  Variable c : cfg.
+  Hypothesis v_vr : v c = vr.
+  Hypothesis pr_nonneg : 0 <= proc c.
 
   Definition hit (x : tr) : bool := recv_causing vr ok x.
   Definition clear (l : list tr) : Prop := Forall (fun x => hit x = false) l.
@@ -225,48 +230,48 @@ Section Terminal.
   Lemma hit_send t a p : hit (TSend t a p) = false. Proof. reflexivity. Qed.
 
   Lemma await_terminal want dl : forall evs now o n e l,
-    await vr want now dl evs = (o, n, e, l) -> part_ok o n l.
+    await c want now dl evs = (o, n, e, l) -> part_ok o n l.
   Proof.
-    induction evs as [|[t a d] r IH]; intros now o n e l H; cbn [await] in H.
-    - injection H as <- <- <- <-. split; [repeat constructor; discriminate|]. split; [intros E; congruence|].
-      intros _. repeat constructor.
-    - destruct (t <? now + sock_timeout now dl).
-      2:{ injection H as <- <- <- <-. split; [repeat constructor; discriminate|]. split; [intros E; congruence|].
-          intros _. repeat constructor. }
-      destruct (a =? client)%N eqn:Ea; cbn [negb] in H.
-      + assert (Hterm : forall cl, classify vr d = cl -> out_of cl <> OAcked ->
-                  (out_of cl, Z.max now t, r, [TRecv t a d]) = (o, n, e, l) -> part_ok o n l).
-        { intros cl Hc Hna HH. injection HH as <- <- <- <-. apply N.eqb_eq in Ea. subst a.
-          split; [repeat constructor; discriminate|]. split.
-          - intros E. exists [], t, d. repeat split; [|constructor|lia].
-            cbn [hit recv_causing]. rewrite N.eqb_refl, Hc. cbn [andb]. now apply outcome_eqb_eq.
-          - intros E. repeat constructor. cbn [hit recv_causing]. rewrite N.eqb_refl, Hc. cbn [andb].
-            destruct (outcome_eqb (out_of cl) ok) eqn:E2; [|reflexivity]. apply outcome_eqb_eq in E2. contradiction. }
-        assert (Hack : forall k, classify vr d = CAck k -> hit (TRecv t a d) = false).
-        { intros k Hc. cbn [hit recv_causing]. rewrite Hc. cbn [out_of].
-          destruct (outcome_eqb OAcked ok) eqn:E2; [|now rewrite andb_false_r].
-          apply outcome_eqb_eq in E2. congruence. }
-        destruct (classify vr d) as [k| | |] eqn:Ec.
-        * destruct (k =? want)%N.
-          -- injection H as <- <- <- <-. split; [repeat constructor; discriminate|]. split; [intros E; congruence|].
-             intros _. repeat constructor. eapply Hack; reflexivity.
-          -- destruct (await vr want (Z.max now t) dl r) as [[[o2 n2] e2] l2] eqn:E2.
-             injection H as <- <- <- <-. destruct (IH _ _ _ _ _ E2) as [L [A B]].
-             split; [constructor; [discriminate|exact L]|]. split.
-             ++ intros E. destruct (A E) as [l0 [t0 [d0 [-> [H1 [H2 H3]]]]]].
-                exists (TRecv t a d :: l0), t0, d0. repeat split; auto. constructor; [eapply Hack; reflexivity|exact H2].
-             ++ intros E. constructor; [eapply Hack; reflexivity|apply B; exact E].
-        * apply (Hterm CPeerError eq_refl); [discriminate|exact H].
-        * apply (Hterm CInvalid eq_refl); [discriminate|exact H].
-        * apply (Hterm CInternal eq_refl); [discriminate|exact H].
-      + destruct (await vr want (Z.max now t) dl r) as [[[o2 n2] e2] l2] eqn:E2.
-        injection H as <- <- <- <-. destruct (IH _ _ _ _ _ E2) as [L [A B]].
-        assert (Hf : hit (TRecv t a d) = false) by (cbn [hit recv_causing]; now rewrite Ea).
-        split; [constructor; [discriminate|constructor; [discriminate|exact L]]|]. split.
-        * intros E. destruct (A E) as [l0 [t0 [d0 [-> [H1 [H2 H3]]]]]].
-          exists (TRecv t a d :: TSend (Z.max now t) a (PError 5) :: l0), t0, d0.
-          repeat split; auto. constructor; [exact Hf|constructor; [reflexivity|exact H2]].
-        * intros E. constructor; [exact Hf|constructor; [reflexivity|apply B; exact E]].
+    assert (TO : forall o n e l t (q : list event), (OTimeout, t, q, [TTimeout t]) = (o, n, e, l) -> part_ok o n l).
+    { intros o n e l t q H. injection H as <- <- <- <-. split; [repeat constructor; discriminate|].
+      split; [intros E; congruence|]. intros _. repeat constructor. }
+    induction evs as [|[t a d] r IH]; intros now o n e l H; cbn [await] in H; rewrite v_vr in H;
+      destruct (negb (late_recv vr) && (dl <=? now)); try (eapply TO; exact H).
+    destruct (t <? now + sock_timeout now dl); [|eapply TO; exact H].
+    destruct (a =? client)%N eqn:Ea; cbn [negb] in H.
+    + assert (Hterm : forall cl, classify vr d = cl -> out_of cl <> OAcked ->
+                (out_of cl, Z.max now t + proc c, r, [TRecv t a d]) = (o, n, e, l) -> part_ok o n l).
+      { intros cl Hc Hna HH. injection HH as <- <- <- <-. apply N.eqb_eq in Ea. subst a.
+        split; [repeat constructor; discriminate|]. split.
+        - intros E. exists [], t, d. repeat split; [|constructor|lia].
+          cbn [hit recv_causing]. rewrite N.eqb_refl, Hc. cbn [andb]. now apply outcome_eqb_eq.
+        - intros E. repeat constructor. cbn [hit recv_causing]. rewrite N.eqb_refl, Hc. cbn [andb].
+          destruct (outcome_eqb (out_of cl) ok) eqn:E2; [|reflexivity]. apply outcome_eqb_eq in E2. contradiction. }
+      assert (Hack : forall k, classify vr d = CAck k -> hit (TRecv t a d) = false).
+      { intros k Hc. cbn [hit recv_causing]. rewrite Hc. cbn [out_of].
+        destruct (outcome_eqb OAcked ok) eqn:E2; [|now rewrite andb_false_r].
+        apply outcome_eqb_eq in E2. congruence. }
+      destruct (classify vr d) as [k| | |] eqn:Ec.
+      * destruct (k =? want)%N.
+        -- injection H as <- <- <- <-. split; [repeat constructor; discriminate|]. split; [intros E; congruence|].
+           intros _. repeat constructor. eapply Hack; reflexivity.
+        -- destruct (await c want (Z.max now t + proc c) dl r) as [[[o2 n2] e2] l2] eqn:E2.
+           injection H as <- <- <- <-. destruct (IH _ _ _ _ _ E2) as [L [A B]].
+           split; [constructor; [discriminate|exact L]|]. split.
+           ++ intros E. destruct (A E) as [l0 [t0 [d0 [-> [H1 [H2 H3]]]]]].
+              exists (TRecv t a d :: l0), t0, d0. repeat split; auto. constructor; [eapply Hack; reflexivity|exact H2].
+           ++ intros E. constructor; [eapply Hack; reflexivity|apply B; exact E].
+      * apply (Hterm CPeerError eq_refl); [discriminate|exact H].
+      * apply (Hterm CInvalid eq_refl); [discriminate|exact H].
+      * apply (Hterm CInternal eq_refl); [discriminate|exact H].
+    + destruct (await c want (Z.max now t + proc c) dl r) as [[[o2 n2] e2] l2] eqn:E2.
+      injection H as <- <- <- <-. destruct (IH _ _ _ _ _ E2) as [L [A B]].
+      assert (Hf : hit (TRecv t a d) = false) by (cbn [hit recv_causing]; now rewrite Ea).
+      split; [constructor; [discriminate|constructor; [discriminate|exact L]]|]. split.
+      * intros E. destruct (A E) as [l0 [t0 [d0 [-> [H1 [H2 H3]]]]]].
+        exists (TRecv t a d :: TSend (Z.max now t + proc c) a (PError 5) :: l0), t0, d0.
+        repeat split; auto. constructor; [exact Hf|constructor; [reflexivity|exact H2]].
+      * intros E. constructor; [exact Hf|constructor; [reflexivity|apply B; exact E]].
   Qed.
 
   Lemma part_ok_send o n l t p : part_ok o n l -> part_ok o n (TSend t client p :: l).
@@ -289,16 +294,14 @@ Section Terminal.
     - intros E. apply clear_app; auto.
   Qed.
 
-  Variable c : cfg.
-  Hypothesis v_vr : v c = vr.
-
   Lemma send_tries_terminal p want : forall tries now evs o n e l,
     send_tries c tries p want now evs = (o, n, e, l) -> part_ok o n l.
   Proof.
     induction tries as [|k IH]; intros now evs o n e l H.
     - cbn [send_tries] in H. injection H as <- <- <- <-. split; [constructor|]. split; [congruence|constructor].
-    - rewrite send_tries_S, v_vr in H.
-      destruct (await vr want now (now + tmo c) evs) as [[[o1 n1] e1] l1] eqn:E1.
+    - rewrite send_tries_S in H.
+      destruct (await c want now (now + tmo c) evs) as [[[o1 n1] e1] l1] eqn:E1.
+      try rewrite v_vr in H.
       pose proof (await_terminal _ _ _ _ _ _ _ _ E1) as P1.
       destruct o1; try (injection H as <- <- <- <-; apply part_ok_send; exact P1).
       destruct P1 as [L1 [_ B1]]. specialize (B1 (fun E => ok_not_timeout (eq_sym E))).
@@ -397,6 +400,7 @@ Proof. intros _. destruct r as [[]|[]]; repeat constructor. Qed.
 Section Current.
   Variable c : cfg.
   Hypothesis v_cur : v c = current.
+  Hypothesis pr_nonneg : 0 <= proc c.
 
   (* any ERROR packet from the peer (any code, any length >= 2) ends the transfer silently:
      after its reception nothing is sent; file and socket are released *)
@@ -408,7 +412,7 @@ Section Current.
     intros E Hd. unfold transfer in E.
     assert (Hy : hit current OPeerError (TRecv t client d) = true).
     { cbn [hit recv_causing]. now rewrite (error_datagram_class d Hd). }
-    destruct (transfer_body_terminal current OPeerError ltac:(discriminate) ltac:(discriminate) c v_cur oack blocks evs)
+    destruct (transfer_body_terminal current OPeerError ltac:(discriminate) ltac:(discriminate) c v_cur pr_nonneg oack blocks evs)
       as [r [n [l [Er [L [A B]]]]]].
     rewrite Er in E. cbn [snd] in E.
     assert (Hdec : r = inl OPeerError \/ r <> inl OPeerError)
@@ -434,7 +438,7 @@ Section Current.
     intros E Hd. unfold transfer in E.
     assert (Hy : hit current OInvalid (TRecv t client d) = true).
     { cbn [hit recv_causing]. now rewrite Hd. }
-    destruct (transfer_body_terminal current OInvalid ltac:(discriminate) ltac:(discriminate) c v_cur oack blocks evs)
+    destruct (transfer_body_terminal current OInvalid ltac:(discriminate) ltac:(discriminate) c v_cur pr_nonneg oack blocks evs)
       as [r [n [l [Er [L [A B]]]]]].
     rewrite Er in E. cbn [snd] in E.
     assert (Hdec : r = inl OInvalid \/ r <> inl OInvalid)
@@ -454,7 +458,7 @@ Section Current.
   Theorem transfer_no_logexc oack blocks evs : ~ In TLogExc (transfer c oack blocks evs).
   Proof.
     unfold transfer.
-    destruct (transfer_body_terminal current OInternal ltac:(discriminate) ltac:(discriminate) c v_cur oack blocks evs)
+    destruct (transfer_body_terminal current OInternal ltac:(discriminate) ltac:(discriminate) c v_cur pr_nonneg oack blocks evs)
       as [r [n [l [Er [L [A B]]]]]].
     rewrite Er. cbn [snd]. intros HIn.
     assert (Hr : r <> inl OInternal).
@@ -470,7 +474,7 @@ End Current.
 (* ================= unsorted scripts ================= *)
 (* A script that hands a foreign datagram stamped 100 to the socket BEFORE a peer datagram
    stamped 50 (no queue does that) moves the clock: block 2 goes out at 100 instead of 50. *)
-Definition unsorted_cfg : cfg := {| tmo := 2048; retries := 1; wrap := Some 0%N; v := current |}.
+Definition unsorted_cfg : cfg := {| tmo := 2048; retries := 1; wrap := Some 0%N; proc := 0; v := current |}.
 Definition unsorted_script : list event :=
   [Recv 100 1%N [0; 4; 0; 1]%N; Recv 50 client [0; 4; 0; 1]%N; Recv 60 client [0; 4; 0; 2]%N].
 Lemma tid_unsorted_refuted :
